@@ -68,6 +68,12 @@ Theorem conv_grammar v :
 Proof. exact (conv_spec v). Qed.
 Print Assumptions conv_grammar.
 
+(* ... and every text printed from a well-formed structure is recognised, with that key *)
+Theorem conv_recognises_grammar c :
+  wf_cname c -> conv (print_cname c) = true /\ key (print_cname c) = cname_key c.
+Proof. exact (conv_complete c). Qed.
+Print Assumptions conv_recognises_grammar.
+
 (* the refinement: on conventional names the comparison is the order of the keys *)
 Theorem cmp_is_key_order a b :
   conv a = true -> conv b = true -> version_cmp a b = Ok (key_compare (key a) (key b)).
@@ -80,6 +86,13 @@ Theorem cmp_is_key_order_strict a b :
   version_cmp_strict a b = Ok (key_compare (key a) (key b)).
 Proof. exact (cmp_strict_key_order a b). Qed.
 Print Assumptions cmp_is_key_order_strict.
+
+(* ... and refuses to sort when they do not (which relational matching turns into: no match) *)
+Theorem strict_unsortable_across_prefixes a b :
+  conv a = true -> conv b = true -> prefix_of a <> prefix_of b ->
+  version_cmp_strict a b = Err Unsortable.
+Proof. exact (cmp_strict_unsortable a b). Qed.
+Print Assumptions strict_unsortable_across_prefixes.
 
 (* the order on keys is a total order: reflexive, antisymmetric, transitive, and equal keys
    only for equal key values *)
@@ -192,6 +205,12 @@ Proof.
   now rewrite orb_false_r in H.
 Qed.
 Print Assumptions match_relop.
+
+Theorem match_other_prefix v op w :
+  conv v = true -> conv w = true -> prefix_of w <> prefix_of v ->
+  version_match v (relop_text op ++ " "%char :: w) = Ok false.
+Proof. intros Cv Cw P. exact (match_unsortable v (Some op, w) Cv Cw P). Qed.
+Print Assumptions match_other_prefix.
 
 (* a bare version means == *)
 Theorem match_bare v w :
